@@ -27,6 +27,12 @@
 //!  * how `ModuleData`'s keep-alive collection of registered functions is
 //!    keyed: a `Vec` that is pushed to holds every `Arc`, a map keyed by
 //!    `TypeId` with insert-if-absent holds one per Rust type.
+//!  * where the value of a script constant lives, i.e. what the address that the
+//!    `ConstantAddress` arm bakes into the code points into: an allocation of
+//!    its own that the `RotoConstant` owns through a stored pointer
+//!    (`ConstStore.ownAlloc`), or the `RotoConstant` value itself, which is an
+//!    entry of the builder's `HashMap` and moves when the table grows
+//!    (`ConstStore.inMapEntry`) → `def constStore`.
 //! Shapes that are not recognised are extraction failures, never defaults.
 #[allow(unused_imports)]
 use super::{Gen, Target};
@@ -659,6 +665,17 @@ fn const_drop_expr(e: &syn::Expr, guard: &'static str, out: &mut Vec<(&'static s
             if guard != "always" {
                 return Err("Drop for RotoConstant: nested conditions are not modelled".into());
             }
+            if let syn::Expr::Let(_) = &*i.cond {
+                // `if let <storage kind> = self.<field> { dealloc }`: giving memory back may depend on where the
+                // value lives; the drop function must not
+                let mut inner = vec![];
+                const_drop_stmts(&i.then_branch.stmts, "always", &mut inner)?;
+                if i.else_branch.is_some() || inner.iter().any(|(_, a)| *a != "dealloc") {
+                    return Err(format!("Drop for RotoConstant: `if {}` guards more than a deallocation", norm(&i.cond)));
+                }
+                out.extend(inner);
+                return Ok(());
+            }
             let g = size_guard(&i.cond)?;
             const_drop_stmts(&i.then_branch.stmts, g, out)?;
             if let Some((_, els)) = &i.else_branch {
@@ -668,11 +685,11 @@ fn const_drop_expr(e: &syn::Expr, guard: &'static str, out: &mut Vec<(&'static s
         }
         other => {
             let t = norm(other);
-            if t == "(self.drop_fn)(self.ptr)" {
+            if t == "(self.drop_fn)(self.ptr)" || t == "(self.drop_fn)(self.ptr())" {
                 out.push((guard, "callDropFn"));
                 Ok(())
             } else if (t.starts_with("std::alloc::dealloc(") || t.starts_with("alloc::dealloc(") || t.starts_with("dealloc("))
-                && t.contains("self.ptr")
+                && (t.contains("self.ptr") || t.starts_with("std::alloc::dealloc(ptr,") || t.starts_with("dealloc(ptr,"))
             {
                 out.push((guard, "dealloc"));
                 Ok(())
@@ -681,6 +698,85 @@ fn const_drop_expr(e: &syn::Expr, guard: &'static str, out: &mut Vec<(&'static s
             }
         }
     }
+}
+
+// ---------------------------------------------------------------- where a script constant's value lives
+
+/// What does the address that `ConstantAddress` bakes into the code for a script constant point into?
+fn const_store(cg: &syn::File, all: &ImplFns, notes: &mut Vec<String>) -> Result<&'static str, String> {
+    let rc_fields = find::struct_fields(cg, "RotoConstant")?;
+    let builder_fields = find::struct_fields(cg, "ModuleBuilder")?;
+    let map_ty = builder_fields
+        .iter()
+        .find(|(n, _)| n == "roto_constants")
+        .map(|(_, t)| t.clone())
+        .ok_or("ModuleBuilder has no field `roto_constants`")?;
+    let by_value = match map_ty.as_str() {
+        "HashMap<ResolvedName,RotoConstant>" => true,
+        "HashMap<ResolvedName,Box<RotoConstant>>" | "HashMap<ResolvedName,Arc<RotoConstant>>" => false,
+        other => return Err(format!("ModuleBuilder.roto_constants : {other}: not a recognised table of script constants")),
+    };
+    // the ConstantAddress arm: `… else if let Some(x) = self.module.roto_constants.get(name) { <address> } …`
+    let mut arm_txt = None;
+    for (imp, _, block) in &all.out {
+        if !imp.starts_with("FuncGen") {
+            continue;
+        }
+        let mut arms = Arms(vec![]);
+        arms.visit_block(block);
+        for a in &arms.0 {
+            if norm(&a.pat).contains("ConstantAddress") {
+                arm_txt = Some(norm(&a.body));
+            }
+        }
+    }
+    let arm_txt = arm_txt.ok_or("FuncGen has no `ConstantAddress` arm")?;
+    let pat = "ifletSome(roto_constant)=self.module.roto_constants.get(name){";
+    let at = arm_txt.find(pat).ok_or("ConstantAddress: the script-constant branch `if let Some(roto_constant) = self.module.roto_constants.get(name)` is not found")?;
+    let rest = &arm_txt[at + pat.len()..];
+    let addr = rest.split('}').next().unwrap_or("").to_string();
+    let is_raw = |f: &str| rc_fields.iter().any(|(n, t)| n == f && (t.starts_with("*mut") || t.starts_with("*const")));
+    // the pointer field of a RotoConstant is filled by `RotoConstant::new` from the allocator
+    let stored_pointer = |f: &str| -> Result<bool, String> {
+        let new = all.out.iter().find(|(i, n, _)| i == "RotoConstant" && n == "new").ok_or("RotoConstant::new not found")?;
+        let t = norm(&new.2);
+        let allocs = t.contains(&format!("let{f}=unsafe{{std::alloc::alloc(layout)}};")) || t.contains(&format!("let{f}=unsafe{{alloc(layout)}};"));
+        let stores = t.contains(&format!("{f}:{f}as*mut()")) || t.contains(&format!("{f}:{f}as*mutu8")) || t.contains(&format!("Self{{{f},"));
+        Ok(allocs && stores)
+    };
+    if let Some(f) = addr.strip_prefix("roto_constant.") {
+        if !f.ends_with("()") {
+            if is_raw(f) && stored_pointer(f)? {
+                notes.push(format!("ConstantAddress bakes `{addr}`: a pointer stored in the RotoConstant, from `alloc` in RotoConstant::new ↦ ConstStore.ownAlloc"));
+                return Ok("ownAlloc");
+            }
+            return Err(format!("ConstantAddress bakes `{addr}`: not a raw-pointer field of RotoConstant that `new` fills from the allocator"));
+        }
+        let m = f.trim_end_matches("()");
+        let body = all
+            .out
+            .iter()
+            .find(|(i, n, _)| i == "RotoConstant" && n == m)
+            .map(|(_, _, b)| norm(b))
+            .ok_or(format!("ConstantAddress bakes `{addr}`: RotoConstant::{m} not found"))?;
+        // does the method hand out an address INSIDE `self` (a reference to / into one of its fields)?
+        let into_self = [".get()", ".as_ptr()", ".as_mut_ptr()", "&rawconst", "&rawmut", "addr_of", "&self.", "&mutself.", "asconst_", "as*const_"]
+            .iter()
+            .any(|w| body.contains(w));
+        if into_self {
+            let r = if by_value { "inMapEntry" } else { "ownAlloc" };
+            notes.push(format!("ConstantAddress bakes `{addr}`; RotoConstant::{m} hands out an address inside the RotoConstant itself; the table holds them {} ↦ ConstStore.{r}", if by_value { "by value" } else { "boxed" }));
+            return Ok(r);
+        }
+        for (n, _) in &rc_fields {
+            if body == format!("{{self.{n}}}") && is_raw(n) && stored_pointer(n)? {
+                notes.push(format!("ConstantAddress bakes `{addr}` = the stored pointer `{n}` ↦ ConstStore.ownAlloc"));
+                return Ok("ownAlloc");
+            }
+        }
+        return Err(format!("ConstantAddress bakes `{addr}`: what RotoConstant::{m} returns is not recognised"));
+    }
+    Err(format!("ConstantAddress bakes `{addr}` for a script constant: not recognised"))
 }
 
 /// a type built only from std containers and scalars: dropping it runs no user or script code
@@ -851,9 +947,23 @@ fn lifetime(repo: &Path) -> Result<String, String> {
         return Err(format!("ModuleData::new: {} `Self {{…}}` literals", md_lit.1.len()));
     }
     let mut field_param: Vec<(String, usize, bool)> = vec![]; // ModuleData field ← parameter index, wrapped in JITModuleWrapper
+    // a local that wraps a parameter first: `let x = JITModuleWrapper(ManuallyDrop::new(<param>));` (x may shadow it)
+    let mut wrapped_locals: Vec<(String, usize)> = vec![];
+    for st in &mdn.block.stmts {
+        if let syn::Stmt::Local(l) = st {
+            if let Some(init) = &l.init {
+                let (x, e) = (norm(&l.pat), norm(&init.expr));
+                if let Some(i) = md_params.iter().position(|p| e == format!("JITModuleWrapper(ManuallyDrop::new({p}))")) {
+                    wrapped_locals.push((x, i));
+                }
+            }
+        }
+    }
     for fv in &md_lit.1[0].fields {
         let (m, e) = (norm(&fv.member), norm(&fv.expr));
-        if let Some(i) = md_params.iter().position(|p| *p == e) {
+        if let Some((_, i)) = wrapped_locals.iter().find(|(x, _)| *x == e) {
+            field_param.push((m, *i, true));
+        } else if let Some(i) = md_params.iter().position(|p| *p == e) {
             field_param.push((m, i, false));
         } else if let Some(i) = md_params.iter().position(|p| e == format!("JITModuleWrapper(ManuallyDrop::new({p}))")) {
             field_param.push((m, i, true));
@@ -962,6 +1072,9 @@ fn lifetime(repo: &Path) -> Result<String, String> {
     // ---- 6. out-of-line data the code refers to by address
     let holders = data_holders(&cg, &all, &mut notes)?;
 
+    // ---- 6b. where the value of a script constant lives
+    let store = const_store(&cg, &all, &mut notes)?;
+
     // ---- 7. a TestCase wraps the handle of its test function
     let tg = find::parse(repo, "src/codegen/testing.rs")?;
     let tc = find::struct_fields(&tg, "TestCase")?;
@@ -995,7 +1108,7 @@ fn lifetime(repo: &Path) -> Result<String, String> {
     for n in &notes {
         out.push_str(&format!("   {n}\n"));
     }
-    out.push_str("-/\nimport RotoV.Model.Lifetime\nnamespace RotoV.Gen.Lifetime\nopen RotoV.Lifetime\n\n");
+    out.push_str("-/\nimport RotoV.Model.Lifetime\nimport RotoV.Model.LifetimeAddr\nnamespace RotoV.Gen.Lifetime\nopen RotoV.Lifetime\n\n");
     out.push_str(&format!(
         "def facts : Facts :=\n  {{ moduleFields := [{}]\n    handleHoldsArc := {}\n    constsCloned := {}\n    fnsCloned := {}\n    freeSites := [{}]\n    closureKeepsArc := {}\n    testHoldsHandle := {}\n    dataHolders := [{}]\n    constDrop := [{}]\n    fnsKeep := .{} }}\n",
         lean_fields.iter().map(|f| format!(".{f}")).collect::<Vec<_>>().join(", "),
@@ -1009,6 +1122,7 @@ fn lifetime(repo: &Path) -> Result<String, String> {
         const_drop.iter().map(|(g, a)| format!("(.{g}, .{a})")).collect::<Vec<_>>().join(", "),
         fns_keep,
     ));
+    out.push_str(&format!("\n/-- what a baked script-constant address points into -/\ndef constStore : ConstStore := .{store}\n"));
     out.push_str("\nend RotoV.Gen.Lifetime\n");
     Ok(out)
 }
